@@ -324,6 +324,7 @@ class Result:
                     'trusted_base': []}
         self.assumptions = []
         self.violations = []      # (key, what, replay-object)
+        shutil.rmtree(EVID / 'replay' / pid, ignore_errors=True)
         self._distinct = set()
 
     # coverage ---------------------------------------------------------
